@@ -50,7 +50,10 @@ CHECKS = {
              'and ExtOK in every registry content of the bound; each state is '
              'rebuilt on a real registry in random order with noise and every '
              'lookup key / entry point compared with the admissible set.',
-        ref='DESIGN.md 3.6, 4 C04'),
+        ref='DESIGN.md 3.6, 4 C04',
+        tech_extra='; traces recorded from the real code (seeded random '
+                   'drivers, the repository\'s doctests) validated by '
+                   'TraceRegistry.tla (code->spec conformance)'),
     'C05': dict(
         spec='Registry.tla (MC_Registry cache configs, push and verify)',
         text='TLC checks CacheTransparent over all interleavings of lookup / '
@@ -60,7 +63,10 @@ CHECKS = {
              'required specifications; every transition is replayed sparsely '
              '(only the queries of the behaviour) and probed densely at the '
              'end against admissible sets computed from primary state only.',
-        ref='DESIGN.md 3.6, 4 C05'),
+        ref='DESIGN.md 3.6, 4 C05',
+        tech_extra='; traces recorded from the real code (seeded random '
+                   'drivers, the repository\'s doctests) validated by '
+                   'TraceRegistry.tla (code->spec conformance)'),
     'C06': dict(
         spec='Registry.tla (MC_Registry chain configs, push and verify)',
         text='TLC checks RoIsFresh and WalkIsBest/CacheTransparent for chains '
@@ -68,7 +74,10 @@ CHECKS = {
              'both flavours with __bases__ reassigned at any level and '
              'registrations in any member; all transitions replayed on real '
              'AdapterRegistry / VerifyingAdapterRegistry chains.',
-        ref='DESIGN.md 3.6, 4 C06'),
+        ref='DESIGN.md 3.6, 4 C06',
+        tech_extra='; traces recorded from the real code (seeded random '
+                   'drivers, the repository\'s doctests) validated by '
+                   'TraceRegistry.tla (code->spec conformance)'),
     'C07': dict(
         spec='Registry.tla (MC_Registry subscription configs)',
         text='TLC checks SubsExact (result is a concatenation of exactly the '
@@ -78,7 +87,10 @@ CHECKS = {
              'registries; states replayed with duplicates, handlers, '
              'arity 0..2 and compared through subscriptions / subscribers / '
              'subscribed / allSubscriptions.',
-        ref='DESIGN.md 3.6, 4 C07'),
+        ref='DESIGN.md 3.6, 4 C07',
+        tech_extra='; traces recorded from the real code (seeded random '
+                   'drivers, the repository\'s doctests) validated by '
+                   'TraceRegistry.tla (code->spec conformance)'),
     'C08': dict(
         spec='Registry.tla (MC_Registry cache + order configs)',
         text='TLC checks EntryPointsAgree on the mechanism and the replay '
@@ -89,7 +101,10 @@ CHECKS = {
              'query steps is drawn per step), comparing each with the same '
              'admissible set, defaults by identity, factories returning None, '
              'non-string names on cold and warm caches.',
-        ref='DESIGN.md 3.6, 4 C08'),
+        ref='DESIGN.md 3.6, 4 C08',
+        tech_extra='; traces recorded from the real code (seeded random '
+                   'drivers, the repository\'s doctests) validated by '
+                   'TraceRegistry.tla (code->spec conformance)'),
     'C09': dict(
         spec='Registry.tla (MC_Registry bookkeeping configs)',
         text='TLC explores register / re-register / unregister (with and '
@@ -99,7 +114,10 @@ CHECKS = {
              'allSubscriptions compared with the net effect; copying into a '
              'fresh registry and rebuild() must answer every probe '
              'identically.',
-        ref='DESIGN.md 3.6, 4 C09'),
+        ref='DESIGN.md 3.6, 4 C09',
+        tech_extra='; traces recorded from the real code (seeded random '
+                   'drivers, the repository\'s doctests) validated by '
+                   'TraceRegistry.tla (code->spec conformance)'),
     'C10': dict(
         spec='ApiProgram.tla (MC_ApiProgram) + Registry / Declarations / '
              'SpecGraph corpora',
